@@ -13,7 +13,7 @@
    correspondence run on every check; the regex engine and the line-col crate are modelled (DESIGN I.6); native stack depth
    and running time are observed by the harness. *)
 From AidlV Require Import Spec.Master Proofs.Master Proofs.Totality Proofs.ParserState Model.ParserState Model.LrDriver
-  Proofs.Typing Proofs.DriverSafe Proofs.ArityOk Proofs.LexProgress Proofs.Termination Proofs.EndToEnd.
+  Proofs.Typing Proofs.DriverSafe Proofs.ArityOk Proofs.LexProgress Proofs.Termination Proofs.EndToEnd Proofs.RegexFuel.
 
 (* validation of grammar-shaped trees cannot panic (index [0], unreachable!, unwrap on None) *)
 Theorem C01_validation_total : forall defined a ds0,
@@ -103,6 +103,14 @@ Theorem C01_inner_loops_fuel_immaterial : forall cx la p states col F, bounded (
 Proof. intros cx la p states col F H1 H2 HF. split; [apply error_reductions_never_out_of_fuel; assumption|apply accepts_never_out_of_fuel; assumption]. Qed.
 Print Assumptions C01_inner_loops_fuel_immaterial.
 
+(* ... nor the lexer's skip loop or the `*` loops of the regex matcher: any fuel above the length of the text gives the same token *)
+Theorem C01_lexer_fuel_immaterial : forall fuel s off, (length s < fuel)%nat -> lex_next gen_lex_table fuel s off = lex1 s off.
+Proof. exact lex1_any_fuel. Qed.
+Print Assumptions C01_lexer_fuel_immaterial.
+Theorem C01_regex_fuel_immaterial : forall f1 f2 r s, (length s < f1)%nat -> (length s < f2)%nat -> match_len_fuel f1 r s = match_len_fuel f2 r s.
+Proof. exact match_len_fuel_any. Qed.
+Print Assumptions C01_regex_fuel_immaterial.
+
 (* the parser stage in full: every text gets a stored result *)
 Theorem C01_parse_total : forall cx id,
   length (cx_lc cx) = S (length (cx_src cx)) -> exists fr, add_content cx id = Added fr /\ fr_id fr = id.
@@ -114,6 +122,14 @@ Theorem C01_total : forall files, Forall held files ->
   exists r, validate files = Ok r /\ map fr_id r = map fr_id files.
 Proof. exact validate_total. Qed.
 Print Assumptions C01_total.
+
+(* ... and over histories: whatever sequence of add_content / remove / add_file / validate a Parser went through (for any file
+   system, and any line/column function with one entry per character), validate returns one result per held file *)
+Theorem C01_any_history : forall (lcf : str -> list (N * N)), (forall s, length (lcf s) = S (length s)) ->
+  forall fs ops, exists r, validate_state (run (parse_model lcf) fs ops) = Ok r /\
+                           map fr_id r = map fr_id (map snd (run (parse_model lcf) fs ops)).
+Proof. exact validate_after_any_history. Qed.
+Print Assumptions C01_any_history.
 
 (* non-vacuity: two held files, one of them unparsable *)
 Example C01_ex_total :
